@@ -7,28 +7,28 @@ def add(id, built, engine, technique, text, note, ref):
 
 
 add("C01", True, "E1-enumerator", "exhaustive small-scope enumeration of (pose, pose, measurement[, offset]) alphabets; oracle = 5-point central difference of the edge's own error through the implementation's boxplus",
-    "Every odometry/landmark edge configuration over the finite pose alphabets (all sign orthants, w<0, w=0, Hurwitz units, +-pi seam, rotated offsets, large translations) is evaluated; each analytic Jacobian column is compared with a 5-point derivative at 1e-9 relative tolerance. Bounded exhaustive: holds for every combination of the alphabet, no claim for other reals.",
+    "Every odometry/landmark edge configuration over the finite pose alphabets (all sign orthants, w<0, w=0, Hurwitz units, +-pi seam, rotated offsets, large translations) is evaluated; each analytic Jacobian column is compared with a 5-point derivative at 1e-9 relative tolerance. Each configuration is also re-judged after an in-place edit of a vertex pose (history of length 2), with the vertices marked fixed, and R^n edges against their exact constant derivative. Bounded exhaustive: holds for every combination of the alphabet, no claim for other reals.",
     "alphabet members only; derivative oracle trusts the implementation's calc_error and boxplus (C02/C09 own those); SE(2) wrap set excluded as the property states", "DESIGN.md 4 C01")
 add("C02", True, "E1-enumerator", "exhaustive enumeration of edge/graph configurations vs an independent homogeneous-matrix / Hamilton-product reference model (float and exact Fraction tiers)",
-    "All single-edge configurations over the pose alphabets x information alphabet and all small edge multisets are compared with the reference error / chi2; consistency (chi2 = 0 iff measurement agrees), non-negativity and linearity in Omega are checked on every member.",
+    "All single-edge configurations over the pose alphabets x information alphabet and all small edge multisets are compared with the reference error / chi2; consistency (chi2 = 0 iff measurement agrees, tiny disagreements survive), non-negativity, linearity in Omega, independence from fixed flags, edges pre-bound to stale vertices, measurement/offset replaced on the same edge object and a single q ~ -q sign convention are checked on every member.",
     "reference model vf/ref/geom.py + vf/ref/edges.py trusted; SE(3) rotational error accepted up to one global sign per evaluation", "DESIGN.md 4 C02")
 add("C03", True, "E1-enumerator", "exhaustive enumeration of small graph shapes (types x edge multisets x fixed subsets x list orders x ids) vs dense reduced Gauss-Newton reference step",
-    "Every well-posed configuration of the bounded graph-shape family is optimised for one iteration and compared with pose [+] dx_ref from an independently assembled dense reduced system.",
+    "Every well-posed configuration of the bounded graph-shape family (all fixed subsets x fix_first_pose x vertex/edge list orders x id maps, weak information, steps of 1e7, shared pose objects, fixed set changed between iterations) is optimised for one iteration and compared with pose [+] dx_ref from an independently assembled dense reduced system.",
     "edge errors/Jacobians taken from the edges themselves (C01/C02 own them); numpy dense solve trusted on <=40x40 well-conditioned systems", "DESIGN.md 4 C03")
 add("C04", True, "E1-enumerator", "exhaustive enumeration of all connected multigraphs on <=4(5) labelled R^n vertices x fixed subsets x initial guesses x information, vs closed-form weighted least squares",
-    "Every linear graph of the bounded family is optimised and compared with the closed-form WLS minimiser and its chi2; structured families up to 30 vertices are added.",
+    "Every linear graph of the bounded family is optimised and compared with the closed-form WLS minimiser and its chi2 (also as the second run on the same Graph object after releasing a vertex, with fix_first_pose, from 1e6 away, with 1e-10-scale information); structured families up to 30 vertices are added.",
     "numpy lstsq/Cholesky trusted for the reference; exhaustive up to 4 (quick) / 5 (thorough) vertices, structured above", "DESIGN.md 4 C04")
 add("C05", True, "E1-enumerator", "exhaustive enumeration of a finite family (graph family x size x perturbation pattern x noise pattern x radius x tol) inside calibrated radii; oracle = chi2 monotone, independent Newton decrement, ground truth recovery",
-    "Every combination of the stated finite family is optimised; the returned state must not increase chi2, must be stationary by an independently computed Newton decrement, and must reproduce ground truth when noise-free.",
+    "Every combination of the stated finite family (plus histories: earlier coarser run, re-anchoring, landmark entered twice with a shared seed object; information scales 1, 1e-6, 1e-10) is optimised; the returned state must not increase chi2, must be stationary by an independently computed Newton decrement, and must reproduce ground truth when noise-free.",
     "claim limited to the calibrated neighbourhood and the listed families; reference error model + 5-point Jacobians trusted", "DESIGN.md 4 C05")
 add("C06", True, "E1-enumerator + fault enumeration", "exhaustive enumeration of graph shapes x fixed subsets (incl. isolated/all/landmark fixed) x deviation-bounded solver faults (0,1,2 injected answers) x iteration counts",
-    "Fixed vertices are compared bitwise before/after optimize in every outcome (normal, singular, diverged, solver fault, exception); free vertices are compared with the reduced reference problem.",
+    "Fixed vertices are compared bitwise before/after optimize in every outcome (normal, singular, diverged, solver fault, exception); free vertices are compared with the reduced reference problem (analytic and numerical-Jacobian twin edges); vertices sharing one pose object and 2-3 call histories with changing fixed sets are compared with fresh twins.",
     "solver seam = module global graphslam.graph.spsolve (fault layer switches itself off and says so if the name disappears)", "DESIGN.md 4 C06")
 add("C07", True, "E2-explorer", "explicit-state exploration of the (Gauss-Newton step, left-transform) state graph: commuting squares checked at every reachable state up to depth 5",
-    "For every graph of the family and every transform of the alphabet, errors/chi2 invariance and GN-step/transform commutation are checked at each state of the 5-step trajectory.",
+    "For every graph of the family and every transform of the alphabet (incl. frames 1e6 away), errors/chi2 invariance and GN-step/transform commutation are checked at each state of the 5-step trajectory, also when an already evaluated graph is re-framed in place, plus full optimize() runs on convergent families.",
     "finite transform alphabet (incl. 180 deg, w<0, large translations); tolerance 1e-9 scaled", "DESIGN.md 4 C07")
 add("C08", True, "E2-explorer", "explicit-state exploration of representation transitions (all vertex/edge permutations, id relabelings, 2 pi k shifts, all quaternion sign patterns, edge splitting, information scaling) as commuting squares with the optimizer step",
-    "Every representation change of the bounded family is applied at every state of a 5-step trajectory; chi2 and the GN step must commute with it.",
+    "Every representation change of the bounded family is applied at every state of the trajectory; chi2 and the GN step must commute with it; relabelings also under fix_first_pose and through the .g2o loader; vertex objects reused in a second permuted graph; full optimize() runs on convergent families.",
     "finite graph family; cross-term and block-diagonal information both used", "DESIGN.md 4 C08")
 add("C09", True, "E1-enumerator", "exhaustive enumeration of pose alphabets (pairs, triples, points, increments) vs homogeneous-matrix / Hamilton-sandwich reference; exact rational tier on Hurwitz x dyadic members",
     "All group laws (matrix homomorphism, (-) definition, two-sided inverse/identity, associativity, point action, boxplus = compose with Exp) are checked on every pair/triple of the finite alphabets, physically (q~-q) at 1e-9, and exactly on the Hurwitz tier.",
